@@ -49,11 +49,116 @@ def run(chk):
     if getattr(chk, "model", None) is None:
         return chk.finish()
     thorough = chk.tier == "thorough"
+    reached_states(chk)          # black box first: it does not depend on any private attribute of the protocol object
     R.run_rx_campaign(chk, 600 if thorough else 120, focus="weird", states=True, raising=True,
                       directed=directed(chk.rng, thorough))
     chk.assumptions = ["handler failures are modelled as exceptions derived from Exception (what the code catches)",
                        "the upper layer does not re-enter the protocol object from frame_received"]
     return chk.finish()
+
+
+def reached_states(chk):
+    """The link states REACHED THROUGH THE PUBLIC INTERFACE (real send() calls under the virtual-time loop) rather than set
+    from outside: fresh, a send waiting for its ACK, a send completed by its ACK, a send whose ACK wait expired, a sender
+    cancelled, after close() and after close() + reconnect.  In each: ACK(0..3) twice, a stale data frame, then probes -
+    the receive entry point never raises and the probes are delivered and acknowledged."""
+    import asyncio
+    from vloop import VLoop, Wire
+    import zigpy_zboss.config as conf
+    import zigpy_zboss.types as t
+    from zigpy_zboss import uart as U
+    from zigpy_zboss.frames import Frame, HLPacket, LLHeader
+    bad = None
+    n = 0
+    states = ["fresh", "pending", "acked", "expired", "cancelled", "closed", "reconnected", "acked-twice"]
+    for state in states:
+        for aseq in range(4):
+            for handler_raises in (False, True):
+                loop = VLoop()
+                asyncio.set_event_loop(loop)
+                got = []
+                try:
+                    cfg = conf.CONFIG_SCHEMA({conf.CONF_DEVICE: {conf.CONF_DEVICE_PATH: "/dev/null"}})
+
+                    class Api:
+                        def frame_received(self, f):
+                            got.append(f)
+                            if handler_raises:
+                                raise RuntimeError("handler failure")
+
+                        def connection_lost(self, e):
+                            pass
+                    proto = U.ZbossNcpProtocol(cfg[conf.CONF_DEVICE], Api())
+                    w = Wire()
+                    proto.connection_made(w)
+
+                    def mk(i):
+                        hl = HLPacket(t.HLCommonHeader(0x00010000 + (i << 16)), t.Bytes(bytes([i])))
+                        ll = LLHeader().with_signature(Frame.signature).with_size(hl.length + 5).with_type(6).with_flags(0xC0)
+                        return Frame(ll, hl)
+
+                    def feed(b):
+                        # from inside the loop, as the transport does
+                        err = []
+
+                        def go():
+                            try:
+                                proto.data_received(b)
+                            except Exception as e:  # noqa
+                                err.append(e)
+                        loop.call_soon(go)
+                        loop.settle()
+                        return err[0] if err else None
+                    ack = lambda q: build_frame_bytes(None, b"", 1 | (q << 4))   # noqa: E731
+                    task = None
+                    if state != "fresh":
+                        task = loop.create_task(proto.send(mk(1)))
+                        loop.settle()
+                    if state in ("acked", "acked-twice"):
+                        feed(ack(0))
+                    if state == "acked-twice":
+                        loop.create_task(proto.send(mk(2)))
+                        loop.settle()
+                        feed(ack(1))
+                    if state == "expired":
+                        loop.advance(U.ACK_TIMEOUT + 0.01)
+                    if state == "cancelled":
+                        task.cancel()
+                        loop.settle()
+                    if state in ("closed", "reconnected"):
+                        loop.advance(U.ACK_TIMEOUT + 0.01)
+                        proto.close()
+                    if state == "reconnected":
+                        w = Wire()
+                        proto.connection_made(w)
+                    n0 = len(w.log)
+                    del got[:]
+                    stream = [ack(aseq), ack(aseq), build_frame_bytes(0x00990000, b"\x07", 0xC0 | (3 << 2)), ack((aseq + 1) % 4)]
+                    probe1 = build_frame_bytes(0x00010100, b"\x11\x22", 0xC0 | (1 << 2))
+                    probe2 = build_frame_bytes(0x00020200, b"", 0xC0 | (2 << 2))
+                    e1 = feed(b"".join(stream) + probe1)
+                    e2 = feed(probe2)
+                    n += 1
+                    chk.evaluations += 1
+                    acks = [bytes(x) for x in w.log[n0:] if len(x) == 7 and x[5] & 1]
+                    m = None
+                    if e1 is not None or e2 is not None:
+                        m = "data_received raised %r" % (e1 or e2)
+                    elif len(got) != 3:
+                        m = "%d frames handed up, 3 well-formed data frames were received" % len(got)
+                    elif state != "closed" and [(a[5] >> 4) & 3 for a in acks] != [3, 1, 2]:
+                        m = "acknowledgements written %s, expected for packet numbers [3, 1, 2]" % [(a[5] >> 4) & 3 for a in acks]
+                    if m is not None and bad is None:
+                        bad = (state, aseq, handler_raises, m)
+                finally:
+                    asyncio.set_event_loop(None)
+                    loop.close()
+    chk.count("reached_state_cases", n)
+    chk.oblige("monitor:never-raises-never-deaf-in-states-reached-through-send/close(%d)" % n, bad is None, repr(bad) if bad else "")
+    if bad:
+        chk.violation("link state '%s' (reached through the public interface), ACK(%d) x2 + a data frame + probes, handler %s: %s"
+                      % (bad[0], bad[1], "raising" if bad[2] else "ok", bad[3]),
+                      {"state": bad[0], "ack_seq": bad[1], "handler_raises": bad[2]}, key="reached:%s" % bad[0])
 
 
 def replay(path):
